@@ -339,8 +339,11 @@ func (s *ServiceItemStmt) CommentGroup() (head, leading CommentGroup) {
 func (s *ServiceItemStmt) Format(prefix ...string) string {
 	w := NewBufferWriter()
 	if s.AtDoc != nil {
-		w.WriteText(s.AtDoc.Format(prefix...))
-		w.NewLine()
+		// an @doc without content is skipped; do not leave its line break behind
+		if text := s.AtDoc.Format(prefix...); text != NilIndent {
+			w.WriteText(text)
+			w.NewLine()
+		}
 	}
 	w.WriteText(s.AtHandler.Format(prefix...))
 	w.NewLine()
